@@ -274,6 +274,10 @@ pub fn fold_case(chars: &[char], a: (u8, usize), b: Option<(u8, usize)>) -> Case
 }
 
 fn main() {
+    kvh::on_thread(real_main);
+}
+
+fn real_main() {
     let args = kvh::parse_args("C03", "c03");
     let mut ctx = Ctx::new(args.clone(), RULE);
     if let Some(p) = &args.replay {
